@@ -11,7 +11,8 @@ import StraxModel.Lemmas.MultiRun
   `cache_race_counterexample`): for the current code the clause "never corrupts or crashes" is
   REFUTED, not proved.  `readonly_workers_safe_partial` is the part that does hold for the code as
   it is (workers that only read the shared state — single target, warm cache).
-  `registry_safe_serialized*` are about a repair that is not applied (a lock).
+  `registry_safe_if_serialized*` are conditional: IF every worker's block were made atomic by a lock
+  (a repair that is NOT applied to /repo) — they say nothing about the current code.
 
   Only property theorems and non-vacuity examples live here; the work is in Lemmas/MultiRun.lean.
 -/
@@ -207,7 +208,7 @@ every resolve succeeds), every scheduled worker has finished, and the registry a
 are what they were initially.  It says nothing about readers that do not take the lock
 (single-target workers, `key_for` during processing): those need the snapshot iteration of the
 suggested patch, which is validated on a scratch copy by the check, not proved. -/
-theorem registry_safe_serialized (nPlugins : Nat) (cacheSet : Bool) (temps : List Nat) (schedule : List Nat) :
+theorem registry_safe_if_serialized (nPlugins : Nat) (cacheSet : Bool) (temps : List Nat) (schedule : List Nat) :
     let sys := (Sys.init nPlugins cacheSet (temps.map lockedProg)).runBlocks schedule
     sys.failures = [] ∧
     sys.shared.reg = baseRegistry nPlugins ∧
@@ -215,8 +216,8 @@ theorem registry_safe_serialized (nPlugins : Nat) (cacheSet : Bool) (temps : Lis
     (∀ i ∈ schedule, ∀ t : Thread, sys.threads[i]? = some t → t.done = true) :=
   runBlocks_safe nPlugins cacheSet temps schedule
 
-/-- (same hypothetical repair) every worker scheduled at least once ⇒ all of them are done -/
-theorem registry_safe_serialized_all_done (nPlugins : Nat) (cacheSet : Bool) (temps : List Nat)
+/-- (same repair that is NOT applied to /repo) every worker scheduled at least once ⇒ all of them are done -/
+theorem registry_safe_if_serialized_all_done (nPlugins : Nat) (cacheSet : Bool) (temps : List Nat)
     (schedule : List Nat) (hall : ∀ i, i < temps.length → i ∈ schedule) :
     ((Sys.init nPlugins cacheSet (temps.map lockedProg)).runBlocks schedule).allDone = true :=
   runBlocks_allDone nPlugins cacheSet temps schedule hall
